@@ -9,6 +9,8 @@ obligations without anybody writing them):
   B  item_error    - aggregating functions: an error among the items of the argument list / of a range is the result;
   C  operators     - all class pairs of {Number int/float, Text, Boolean, Blank, DateTime}: a value or one of
                      #VALUE! #DIV/0! #NUM!, never a Python exception;
+  D  node         - OperatorNode.eval for the twelve infix operators: every pair of (error | number) operands,
+                     the leftmost error is the result;
   E  inspectors    - ISERROR / ISERR / ISNA / NA / ISNUMBER / ISTEXT / ISBLANK truth tables over the class fork.
 """
 import inspect
@@ -150,6 +152,34 @@ for name in ('OP_NEG', 'OP_PERCENT'):
         cases=[Case('a value or #VALUE!/#DIV/0!/#NUM!, never a Python exception', lambda *a: True, _value_or_typed_error)],
         call=(lambda f: lambda it, fn, *vals: it.call(f, list(vals), {}))(fn),
         native_call=(lambda f: lambda fn, *vals: f(*vals))(fn)))
+
+# ---- D: the AST node behind the infix operators hands on the LEFTMOST error -------------------------------------------
+def _node_units():
+    from contracts import c01_precedence as P1
+
+    def ens(l, r, out):
+        if out.kind != 'ret':
+            return False
+        res, log = out.value
+        o = type('O', (), {'kind': 'ret', 'value': res})()
+        E = spec.E().ExcelError
+        if isinstance(l, E):
+            return spec.is_same_object(o, l)
+        if isinstance(r, E):
+            return spec.is_same_object(o, r)
+        return True
+    errs = [XlErr(c) for c in ERROR_CLASSES]
+    for sym_ in P1.BIN:
+        call, native = P1._eval_call(sym_)
+        yield Unit(
+            id=f'C07/ast_nodes.OperatorNode.eval[{sym_}]/leftmost_error', target='xlcalculator.ast_nodes:OperatorNode.eval', fork='product',
+            inputs=[('l', Fork(errs + [Xl('Number', 'real', domain=[1.0, 0.0])])), ('r', Fork(errs + [Xl('Number', 'real', domain=[2.0, 0.0])]))],
+            cases=[Case(f'"{sym_}" through its AST node: an error operand is the result, the LEFT one when both operands are errors',
+                        lambda l, r: True, ens)],
+            call=call, native_call=native, bounded_domain_cap=70)
+
+
+UNITS.extend(_node_units())
 
 # ---- E: the error-inspecting family -----------------------------------------------------------------------------------
 ANY = SCALARS[:5] + [XlErr(c) for c in ERROR_CLASSES]
